@@ -149,7 +149,11 @@ VisitJsAs(w, st, src, at, o) ==
   LET mt0 == w.ext[at]
       mt == IF mt0 = "noext" THEN "js" ELSE mt0      \* only a root can be admitted without extension
       deps0 == FillDeps(w.mods[src].items, mt, o.kind, AbsFile(w, at))
-      tdep == IF IncludeTypes(o.kind) /\ ~IsTypedMt(mt) /\ w.mods[src].st # "-" THEN Ok(w.mods[src].st) ELSE NONE
+      \* types dependency: @ts-self-types of an untyped module, else the X-TypeScript-Types response header (`ht`,
+      \* honoured whatever the media type: 3790-3811)
+      ht == IF "ht" \in DOMAIN w.mods[src] THEN w.mods[src].ht ELSE "-"
+      tdep == IF IncludeTypes(o.kind) /\ ~IsTypedMt(mt) /\ w.mods[src].st # "-" THEN Ok(w.mods[src].st)
+              ELSE IF IncludeTypes(o.kind) /\ ht # "-" THEN Ok(ht) ELSE NONE
       visit == IncludeCode(o.kind) \/ IsNone(tdep)
       r == IF visit THEN VisitDeps(st, deps0, 1, o, at, <<>>) ELSE <<st, <<>>>>
       st1 == r[1]
@@ -300,7 +304,9 @@ FollowedTargets(w, s, o) ==      \* targets of the followed dependencies of modu
   LET mt0 == w.ext[s]
       mt == IF mt0 = "noext" THEN "js" ELSE mt0
       deps == FillDeps(w.mods[s].items, mt, o.kind, AbsFile(w, s))
-      tdep == IF IncludeTypes(o.kind) /\ ~IsTypedMt(mt) /\ w.mods[s].st # "-" THEN {w.mods[s].st} ELSE {}
+      ht == IF "ht" \in DOMAIN w.mods[s] THEN w.mods[s].ht ELSE "-"
+      tdep == IF IncludeTypes(o.kind) /\ ~IsTypedMt(mt) /\ w.mods[s].st # "-" THEN {w.mods[s].st}
+              ELSE IF IncludeTypes(o.kind) /\ ht # "-" THEN {ht} ELSE {}
       visit == IncludeCode(o.kind) \/ tdep = {}
       fromDeps == IF ~visit THEN {} ELSE
         UNION { (IF (IncludeCode(o.kind) \/ IsNone(deps[i].type)) /\ IsOk(deps[i].code) THEN {deps[i].code.ok} ELSE {})
